@@ -44,11 +44,13 @@ CHECKS = {
         "rule": ("one evaluation = one generated directory tree with ground truth (nested packages, several files per package, methods, closures, generic instances, files named like "
                  "tests, hidden and vendor directories, broken / ill-typed / oversize files) analysed by check (strict or not, with or without scan) or scan through the simulated "
                  "FileSystem seam inside a synctest bubble with a tape-driven worker schedule; the fault configuration injects EIO / EACCES / ENOENT / oversize / vanished-file "
-                 "faults per call and unreadable directories during the walk. Non-trivial = fault-free run, or a run in which at least one fault fired; distinct = distinct "
+                 "faults per call and unreadable directories during the walk; a third job runs single files through ProcessFile with a recording signature scanner that "
+                 "fails transiently on a tape-chosen call: every fingerprinted function must still be handed to the scanner. Non-trivial = fault-free run, or a run in which at least one fault fired; distinct = distinct "
                  "(tree, command, options, schedule, fired faults)."),
         "jobs": [
             {"engine": "clisim-coverage", "bin": "cli", "test": "TestVerifC16", "cfg": {"faults": "off"}, "cpu": 4, "weight": 1, "thorough_cfg": {"corpus": "150"}},
             {"engine": "clisim-coverage", "bin": "cli", "test": "TestVerifC16", "cfg": {"faults": "on"}, "cpu": 4, "weight": 2, "thorough_cfg": {"corpus": "150"}},
+            {"engine": "clisim-scannerfault", "bin": "cli", "test": "TestVerifC16Scanner", "cfg": {}, "cpu": 4, "weight": 1, "max_workers": 3, "thorough_cfg": {"corpus": "150"}},
         ],
         "assumptions": ["a warning on stderr that names the path counts as 'reported'; the strict-mode clause has no such latitude",
                         "the converse (strict failing although everything was analysed) is not demanded"],
